@@ -276,7 +276,9 @@ impl Ck<'_, '_> {
         let shown = strip_paths(&value_tyname(v)).replace(", Global", "");
         let want = self.defs.name(ty).replace(", Global", "");
         if shown != want {
-            let key = if matches!(ty, Ty::Array(..)) && shown == format!("[{}]", self.defs.name(match ty { Ty::Array(e, _) => e, _ => unreachable!() }).replace(", Global", "")) { "array-type-name-lacks-length".to_string() }
+            let want_nolen = { let mut o = String::new(); let cs: Vec<char> = want.chars().collect(); let mut i = 0;
+                while i < cs.len() { if cs[i] == ';' && i + 1 < cs.len() && cs[i + 1] == ' ' { let mut j = i + 2; while j < cs.len() && cs[j].is_ascii_digit() { j += 1; } if j > i + 2 { i = j; continue; } } o.push(cs[i]); i += 1; } o };
+            let key = if matches!(ty, Ty::Array(..)) && shown == want_nolen { "array-type-name-lacks-length".to_string() }
                       else { format!("type-name-{fam}") };
             self.fail(&key, format!("{path}: type shown as `{}` (paths stripped: `{shown}`), the Rust type is `{want}`", value_tyname(v)));
         }
@@ -434,6 +436,7 @@ impl Ck<'_, '_> {
                 if len != Some(ts.len() as i64) { self.fail("slice-length", format!("{path}: length shown {len:?}, the program holds {}", ts.len())); return; }
                 let Some(Value::Pointer(p)) = s.members.iter().find(|m| m.field_name.as_deref() == Some("data_ptr")).map(|m| &m.value) else { self.fail("slice-no-data-ptr", format!("{path}: no data_ptr")); return };
                 if ts.is_empty() { return; }
+                if p.target_type.and_then(|t| self.pcx.type_graph.type_size_in_bytes(self.pcx.evcx, t)) == Some(0) { return; } // C08 key ptr-slice-zero-sized-element-panics
                 match p.slice(self.pcx, None, ts.len()) {
                     Some(Value::Array(a)) => {
                         if let (Some(addr), Some(tt)) = (p.value, p.target_type) { self.derefs.push(("s", tt, vec![addr as usize, 0, ts.len()], Value::Array(a.clone()))); }
